@@ -102,6 +102,12 @@ def run(env):
                 seeds += [f"3({body})n", f"3({body})", f"2(2({body})n,)n"]
                 if ex == "X":
                     seeds += [f"1{{{body}}}n", f"5λ{body};†n", f"3ƛ{body};n", f"@f:1|{body};5@f;n"]
+    # structures written with more branches than the usual form (several loop names, extra condition / parameter branches), run for
+    # zero, one and several iterations, followed by a top-level context read
+    for n in ("0", "1", "3"):
+        for body in ("n", "n,", "X", "n2=[x]"):
+            seeds += [f"{n}(i|j|{body})n", f"{n}(i|j|k|{body})n", f"{n}(a|{body})n", f"2({n}(i|j|{body}))n"]
+    seeds += ["3{1|2|X}n", "2λ1|2|n;†n", "@f:a|b|n;3@f;n", "[1|2|3|4|5]n", "3ƛ1|2|n;n", "⟨1|2⟩(i|j|n,)n", "`ab`(i|j|n)n"]
     seeds = list(dict.fromkeys(seeds))
     exhaustive = list(parsecorr.exhaustive(env.budget(3, 4)))
     transcorr.check(env, seeds + gen[: env.budget(400, 3000)])
